@@ -278,20 +278,20 @@ func (r *Rng) xmlNode(g *XGen, depth int) *XNode {
 	}
 	if depth >= g.MaxDepth {
 		if r.P(70) {
-			n.Kids = append(n.Kids, &XNode{Kind: 'T', Text: r.Pick(g.Texts)})
+			n.Kids = append(n.Kids, &XNode{Kind: 'T', Text: r.elemText(g)})
 		}
 		return n
 	}
 	switch x := r.Intn(100); {
 	case x < 30: // simple text
-		n.Kids = append(n.Kids, &XNode{Kind: 'T', Text: r.Pick(g.Texts)})
+		n.Kids = append(n.Kids, &XNode{Kind: 'T', Text: r.elemText(g)})
 	case x < 40: // empty
 	default:
 		nk := 1 + r.Intn(g.MaxKids)
 		if g.SeqShape {
 			// text (if any) first, then children; at most one comment / PI / directive
 			if r.P(g.MixedP) {
-				n.Kids = append(n.Kids, &XNode{Kind: 'T', Text: r.Pick(g.Texts)})
+				n.Kids = append(n.Kids, &XNode{Kind: 'T', Text: r.elemText(g)})
 			}
 			used := map[byte]bool{}
 			for i := 0; i < nk; i++ {
@@ -306,7 +306,7 @@ func (r *Rng) xmlNode(g *XGen, depth int) *XNode {
 						case 'C':
 							n.Kids = append(n.Kids, &XNode{Kind: 'C', Text: r.Pick([]string{" note ", "x", "a-b", "2024", "true", "1.5", " 7 ", " 100% done ", "%s %d"})})
 						case 'P':
-							n.Kids = append(n.Kids, &XNode{Kind: 'P', Target: r.Pick([]string{"pi", "target"}), Text: r.Pick([]string{"a=1", "do it", "42", "false", "href=\"my%20style.xsl\""})})
+							n.Kids = append(n.Kids, &XNode{Kind: 'P', Target: r.Pick([]string{"pi", "target"}), Text: r.Pick([]string{"a=1", "do it", "42", "false", "href=\"my%20style.xsl\"", "mode=\"fast\" ", "a=1\t", "x  "})})
 						default:
 							n.Kids = append(n.Kids, &XNode{Kind: 'D', Text: r.Pick([]string{"DOCTYPE x", "ELEMENT a", "12", "true", "ENTITY % pe \"x\""})})
 						}
@@ -331,7 +331,7 @@ func (r *Rng) xmlNode(g *XGen, depth int) *XNode {
 				lastWasText = true
 			}
 			if textBudget > 0 && r.P(35) && !lastWasText {
-				n.Kids = append(n.Kids, &XNode{Kind: 'T', Text: r.Pick(g.Texts)})
+				n.Kids = append(n.Kids, &XNode{Kind: 'T', Text: r.elemText(g)})
 				textBudget--
 				lastWasText = true
 				continue
@@ -341,7 +341,7 @@ func (r *Rng) xmlNode(g *XGen, depth int) *XNode {
 				case 0:
 					n.Kids = append(n.Kids, &XNode{Kind: 'C', Text: r.Pick([]string{" note ", "x", "a-b", "", "2024", "true", "1.5", " 7 ", " 100% done ", "%s %d"})})
 				case 1:
-					n.Kids = append(n.Kids, &XNode{Kind: 'P', Target: r.Pick([]string{"pi", "target"}), Text: r.Pick([]string{"", "a=1", "do it", "42", "false", "href=\"my%20style.xsl\""})})
+					n.Kids = append(n.Kids, &XNode{Kind: 'P', Target: r.Pick([]string{"pi", "target"}), Text: r.Pick([]string{"", "a=1", "do it", "42", "false", "href=\"my%20style.xsl\"", "mode=\"fast\" ", "a=1\t", "x  "})})
 				default:
 					n.Kids = append(n.Kids, &XNode{Kind: 'D', Text: r.Pick([]string{"DOCTYPE x", "ELEMENT a", "12", "true", "ENTITY % pe \"x\""})})
 				}
@@ -352,7 +352,7 @@ func (r *Rng) xmlNode(g *XGen, depth int) *XNode {
 			lastWasText = false
 		}
 		if textBudget > 0 && !lastWasText && r.P(50) {
-			n.Kids = append(n.Kids, &XNode{Kind: 'T', Text: r.Pick(g.Texts)})
+			n.Kids = append(n.Kids, &XNode{Kind: 'T', Text: r.elemText(g)})
 		}
 	}
 	return n
@@ -605,4 +605,15 @@ func hasNamePrefix(n *XNode, pfx string) bool {
 		}
 	}
 	return false
+}
+
+// elemText: the text alphabet, now and then with a carriage return at an edge (written as &#xD; by the
+// renderer: the tokenizer does not normalise a character reference, the decoder trims it like the
+// other white space; attribute values are never trimmed and keep to the plain alphabet).
+func (r *Rng) elemText(g *XGen) string {
+	t := r.Pick(g.Texts)
+	if r.P(3) {
+		return r.Pick([]string{"\r" + t, t + "\r", "\r"})
+	}
+	return t
 }
